@@ -1577,3 +1577,135 @@ Proof.
   intros ws Hw Hl. rewrite combine_eq by auto. rewrite fold_oc_add_norm by (auto; lia).
   rewrite Z.add_0_l. reflexivity.
 Qed.
+(* ------------------------------------------------------------------------------------- *)
+(* double-bit corruption: exact characterisation of what goes undetected                  *)
+(* ------------------------------------------------------------------------------------- *)
+
+(* bit column inside the 16-bit word: bits of the high (even-offset) byte are columns 8..15 *)
+Definition col (i : nat) (k : Z) : Z := if Nat.even i then k + 8 else k.
+Definition bit_of (l : list Z) (i : nat) (k : Z) : bool := Z.testbit (nth i l 0) k.
+Definition sgn (b : bool) : Z := if b then -1 else 1.
+
+Definition dd_row (j1 j2 : Z) : bool :=
+  forallb (fun s1 => forallb (fun s2 =>
+    Bool.eqb ((s1 * 2 ^ j1 + s2 * 2 ^ j2) mod 65535 =? 0) ((j1 =? j2) && (s1 + s2 =? 0)))
+    [1; -1]) [1; -1].
+
+Lemma dd_table :
+  forallb (fun j1 => forallb (fun j2 => dd_row (Z.of_nat j1) (Z.of_nat j2)) (seq 0 16)) (seq 0 16) = true.
+Proof. vm_compute. reflexivity. Qed.
+
+Lemma double_delta : forall j1 j2 b1 b2, 0 <= j1 < 16 -> 0 <= j2 < 16 ->
+  ((sgn b1 * 2 ^ j1 + sgn b2 * 2 ^ j2) mod 65535 = 0 <-> j1 = j2 /\ b1 <> b2).
+Proof.
+  intros j1 j2 b1 b2 H1 H2. pose proof dd_table as T. rewrite forallb_forall in T.
+  specialize (T (Z.to_nat j1)). rewrite in_seq in T. specialize (T ltac:(lia)).
+  rewrite forallb_forall in T. specialize (T (Z.to_nat j2)). rewrite in_seq in T.
+  specialize (T ltac:(lia)). rewrite !Z2Nat.id in T by lia.
+  unfold dd_row in T. rewrite forallb_forall in T.
+  specialize (T (sgn b1) ltac:(destruct b1; cbn; auto)).
+  rewrite forallb_forall in T.
+  specialize (T (sgn b2) ltac:(destruct b2; cbn; auto)).
+  apply eqb_prop in T.
+  destruct ((sgn b1 * 2 ^ j1 + sgn b2 * 2 ^ j2) mod 65535 =? 0) eqn:E.
+  - symmetry in T. apply andb_true_iff in T. destruct T as [Tj Ts].
+    split; [intros _|intros _; lia]. split; [lia|].
+    destruct b1, b2; cbn [sgn] in Ts; try discriminate; congruence.
+  - split; [lia|]. intros [Ej Eb]. symmetry in T. apply andb_false_iff in T.
+    destruct T as [T|T]; [lia|]. destruct b1, b2; cbn [sgn] in T; try congruence; lia.
+Qed.
+
+Lemma pow2_col : forall i k, 0 <= k < 8 -> 2 ^ k * weight i = 2 ^ col i k /\ 0 <= col i k < 16.
+Proof.
+  intros i k Hk. unfold weight, col. destruct (Nat.even i).
+  - rewrite Z.pow_add_r by lia. change (2 ^ 8) with 256. lia.
+  - lia.
+Qed.
+
+Lemma besum_flip_exact : forall l i k, bytes l -> (i < length l)%nat -> 0 <= k < 8 ->
+  besum (flip_at l i k) = besum l + sgn (bit_of l i k) * 2 ^ col i k.
+Proof.
+  intros l i k Bl Hi Hk. unfold flip_at. rewrite besum_upd by exact Hi.
+  destruct (flip_bit_spec (nth i l 0) k (nth_bytes l i Bl) Hk) as [_ [E _]].
+  destruct (pow2_col i k Hk) as [Ec _]. rewrite <- Ec. rewrite E. unfold bit_of, sgn.
+  destruct (Z.testbit (nth i l 0) k); lia.
+Qed.
+
+Lemma bit_of_flip_other : forall l i1 k1 i2 k2, (i1 < length l)%nat -> 0 <= k1 -> 0 <= k2 ->
+  (i1 <> i2 \/ k1 <> k2) -> bit_of (flip_at l i1 k1) i2 k2 = bit_of l i2 k2.
+Proof.
+  intros l i1 k1 i2 k2 Hi H1 H2 Hne. unfold bit_of.
+  destruct (Nat.eq_dec i1 i2) as [->|Hn].
+  - unfold flip_at. rewrite upd_nth_same by exact Hi. unfold flip_bit.
+    rewrite Z.lxor_spec. rewrite Z.pow2_bits_false by lia. apply xorb_false_r.
+  - rewrite flip_at_nth_other by exact Hn. reflexivity.
+Qed.
+
+(* Two distinct bit positions of a valid region are inverted.  The corruption passes the checksum
+   test exactly when both bits lie in the same bit column of their 16-bit words and had opposite
+   values (one 0 -> 1, the other 1 -> 0); every other double flip is detected. *)
+Lemma gen_double_flip : forall P region i1 k1 i2 k2, 0 <= P -> bytes region ->
+  (i1 < length region)%nat -> (i2 < length region)%nat -> 0 <= k1 < 8 -> 0 <= k2 < 8 ->
+  (i1 <> i2 \/ k1 <> k2) ->
+  gen_verify P region = true ->
+  gen_verify P (flip_at (flip_at region i1 k1) i2 k2) =
+    (col i1 k1 =? col i2 k2) && xorb (bit_of region i1 k1) (bit_of region i2 k2).
+Proof.
+  intros P region i1 k1 i2 k2 HP Br H1 H2 Hk1 Hk2 Hne V.
+  assert (B1 : bytes (flip_at region i1 k1)) by (apply flip_at_bytes; auto).
+  assert (B2 : bytes (flip_at (flip_at region i1 k1) i2 k2)) by (apply flip_at_bytes; auto).
+  pose proof (besum_flip_exact region i1 k1 Br H1 Hk1) as E1.
+  pose proof (besum_flip_exact (flip_at region i1 k1) i2 k2 B1
+                ltac:(rewrite flip_at_length; exact H2) Hk2) as E2.
+  rewrite bit_of_flip_other in E2 by (auto; lia). rewrite E1 in E2.
+  destruct (pow2_col i1 k1 Hk1) as [_ C1]. destruct (pow2_col i2 k2 Hk2) as [_ C2].
+  pose proof (double_delta (col i1 k1) (col i2 k2) (bit_of region i1 k1) (bit_of region i2 k2) C1 C2) as DD.
+  apply gen_verify_true_iff in V; auto.
+  pose proof (besum_nonneg _ B2) as N2.
+  set (D := sgn (bit_of region i1 k1) * 2 ^ col i1 k1 + sgn (bit_of region i2 k2) * 2 ^ col i2 k2) in *.
+  assert (ET : P + besum (flip_at (flip_at region i1 k1) i2 k2) = P + besum region + D) by lia.
+  destruct ((col i1 k1 =? col i2 k2) && xorb (bit_of region i1 k1) (bit_of region i2 k2)) eqn:R.
+  - apply andb_true_iff in R. destruct R as [Rc Rx].
+    assert (D mod 65535 = 0).
+    { apply DD. split; [lia|]. destruct (bit_of region i1 k1), (bit_of region i2 k2); cbn in Rx; congruence. }
+    assert (D = 0).
+    { unfold D. replace (col i2 k2) with (col i1 k1) by lia.
+      destruct (bit_of region i1 k1), (bit_of region i2 k2); cbn in Rx; try discriminate; cbn [sgn]; lia. }
+    apply gen_verify_true_iff; auto. rewrite ET. lia.
+  - destruct (gen_verify P (flip_at (flip_at region i1 k1) i2 k2)) eqn:V'; [|reflexivity].
+    apply gen_verify_true_iff in V'; auto. rewrite ET in V'.
+    assert (HD : D mod 65535 = 0) by lia.
+    apply DD in HD. destruct HD as [Hc Hb].
+    apply andb_false_iff in R. destruct R as [R|R]; [lia|].
+    destruct (bit_of region i1 k1), (bit_of region i2 k2); cbn in R; congruence.
+Qed.
+
+Lemma icmpv4_double_flip : forall dbg be p i1 k1 i2 k2, bytes p ->
+  Z.of_nat (length p) <= cksum_max_len ->
+  (i1 < length p)%nat -> (i2 < length p)%nat -> 0 <= k1 < 8 -> 0 <= k2 < 8 ->
+  (i1 <> i2 \/ k1 <> k2) ->
+  cksum_icmpv4_verify dbg be p = Ok true ->
+  cksum_icmpv4_verify dbg be (flip_at (flip_at p i1 k1) i2 k2) =
+    Ok ((col i1 k1 =? col i2 k2) && xorb (bit_of p i1 k1) (bit_of p i2 k2)).
+Proof.
+  intros dbg be p i1 k1 i2 k2 Bp Hl H1 H2 Hk1 Hk2 Hne V.
+  rewrite icmpv4_verify_shape in V by auto. inversion V as [V'].
+  rewrite icmpv4_verify_shape by (rewrite ?flip_at_length; auto using flip_at_bytes).
+  rewrite gen_double_flip; auto. lia.
+Qed.
+
+Lemma tcp_double_flip : forall dbg be src dst p i1 k1 i2 k2, bytes p ->
+  addr_ok src -> addr_ok dst -> same_family src dst ->
+  Z.of_nat (length p) <= cksum_max_len ->
+  (i1 < length p)%nat -> (i2 < length p)%nat -> 0 <= k1 < 8 -> 0 <= k2 < 8 ->
+  (i1 <> i2 \/ k1 <> k2) ->
+  cksum_tcp_verify dbg be src dst p = Ok true ->
+  cksum_tcp_verify dbg be src dst (flip_at (flip_at p i1 k1) i2 k2) =
+    Ok ((col i1 k1 =? col i2 k2) && xorb (bit_of p i1 k1) (bit_of p i2 k2)).
+Proof.
+  intros dbg be src dst p i1 k1 i2 k2 Bp As Ad Hf Hl H1 H2 Hk1 Hk2 Hne V.
+  rewrite tcp_verify_shape in V by auto. inversion V as [V'].
+  rewrite tcp_verify_shape by (rewrite ?flip_at_length; auto using flip_at_bytes).
+  unfold tcp_P at 1. rewrite !flip_at_length. fold (tcp_P src dst p).
+  rewrite gen_double_flip; auto. apply ph_nonneg; auto. unfold cksum_PROTO_TCP; lia.
+Qed.
